@@ -117,6 +117,7 @@ class BaseSamples:
             log_prior=self.log_prior,
             log_q=self.log_q,
             xp=np,
+            dtype=dtype,
         )
 
     def to_namespace(self, xp, dtype: Any | str | None = None):
@@ -401,6 +402,7 @@ class BaseSamples:
             parameters=samples.parameters,
             xp=xp,
             device=device,
+            dtype=dtype,
             **kwargs,
         )
 
@@ -700,6 +702,7 @@ class SMCSamples(BaseSamples):
             log_likelihood=self.log_likelihood,
             log_prior=self.log_prior,
             xp=self.xp,
+            dtype=self.dtype,
             parameters=self.parameters,
             log_evidence=self.log_evidence,
             log_evidence_error=self.log_evidence_error,
